@@ -880,7 +880,9 @@ func deliver(o *engine.Outcome, op *engine.Op, faults []*engine.Fault, recorded 
 	}
 	var accepted, parsed bool
 	var consumed int
-	if o.Guard("floodfill "+m.kind, func() { accepted, consumed, parsed, _ = floodfill(m.kind, append([]byte(nil), m.raw...), m.idSig, m.idKey) }) {
+	if o.Guard("floodfill "+m.kind, func() {
+		accepted, consumed, parsed, _ = floodfill(m.kind, append([]byte(nil), m.raw...), m.idSig, m.idKey)
+	}) {
 		accepted = false
 	}
 	var ref refmodel.RawVerdict
